@@ -1164,12 +1164,23 @@ def pred_d47(fn: ast.FunctionDef) -> bool:
     return False
 
 
-PREDICATES = {"C01-D24": pred_d24, "C01-D28": pred_d28, "C01-D36": pred_d36, "C01-D46": pred_d46, "C01-D47": pred_d47}
+def pred_d48(fn: ast.FunctionDef) -> bool:
+    """a comparison (or `not`) whose only variables are `for` loop indices: a Python bool in eager mode"""
+    loopvars = {n.target.id for n in ast.walk(fn) if isinstance(n, ast.For) and isinstance(n.target, ast.Name)}
+    for n in ast.walk(fn):
+        if isinstance(n, ast.Compare):
+            names = {x.id for x in ast.walk(n) if isinstance(x, ast.Name)}
+            if names and names <= loopvars and not any(isinstance(x, ast.Call) for x in ast.walk(n)):
+                return True
+    return False
+
+
+PREDICATES = {"C01-D24": pred_d24, "C01-D28": pred_d28, "C01-D36": pred_d36, "C01-D46": pred_d46, "C01-D48": pred_d48}
 # a predicate that only explains failures of a particular kind (substring of the failure text)
-FAILURE_FILTER: dict = {}
+FAILURE_FILTER: dict = {"C01-D48": ["eager fails (ERR TypeError: Unexpected type <class 'bool'>"]}
 FIXED_PREDICATES = {"C01-D23": pred_d23, "C01-D25": pred_d25, "C01-D26": pred_d26, "C01-D30": pred_d30,
                     "C01-D27": pred_d27, "C01-D29": pred_d29, "C01-D37": pred_d37, "C01-D39": pred_d39,
-                    "C01-D41": pred_d41, "C01-D43": pred_d43}
+                    "C01-D41": pred_d41, "C01-D43": pred_d43, "C01-D47": pred_d47}
 # regions the converter REFUSES since 9b326d7 / 9f69276 / fc696f7 (formerly findings C01-D31 / C01-D33 / C01-D38): the
 # generator of accepted programs stays out of them; they are exercised as near-miss kinds (`loop-var-read-after-loop`,
 # `return-not-last`, `loop-without-state`) and by the corpus witnesses w_d31 / w_d33 / w_d38
@@ -1791,9 +1802,9 @@ def mixed_opset_program(rng, name: str) -> dict:
 # operator with several outputs.  The variants that hit an open finding carry its id (`finding_ids`).
 
 
-def keyword_input_program(rng, name: str) -> dict:
+def keyword_input_program(rng, name: str, k: int = 0) -> dict:
     lo, hi = rng.choice([("0.5", "2.0"), ("-1.0", "1.5"), ("s", "2.5"), ("0.0", "s")])
-    form = rng.choice(["both-kw", "second-kw", "min-kw", "max-only", "max-only"])
+    form = ["both-kw", "second-kw", "min-kw", "max-only"][k % 4]
     call = {"both-kw": f"op.Clip(A, min={lo}, max={hi})", "second-kw": f"op.Clip(A, {lo}, max={hi})",
             "min-kw": f"op.Clip(A, min={lo})", "max-only": f"op.Clip(A, max={hi})"}[form]
     body = [f"x = {call}", rng.choice(["return x", "return op.Add(x, A)", "return (x * 2.0)"])]
@@ -1803,10 +1814,10 @@ def keyword_input_program(rng, name: str) -> dict:
     return m   # `max-only` was C01-D43 (keyword input shifted into the omitted slot), fixed by b7afd5e
 
 
-def const_if_program(rng, name: str) -> dict:
+def const_if_program(rng, name: str, k: int = 0) -> dict:
     g = f"flag_{name}"
     val = rng.choice([0, 1])
-    kind = rng.choice(["plain", "plain", "param", "in-loop"])
+    kind = ["plain", "in-loop", "param", "plain"][k % 4]   # every kind in every run (required features)
     then_, else_ = rng.choice([("op.Neg(A)", "op.Abs(A)"), ("(A * 2.0)", "op.Add(A, 1.0)"), ("op.Relu(A)", "A")])
     if kind == "in-loop":
         body = ["y = op.Identity(A)", "for i in range(2):", f"    if {g}:", f"        y = op.Add(y, {then_})", "    else:",
@@ -1832,6 +1843,15 @@ def break_else_program(rng, name: str) -> dict:
     src = "@script(default_opset=op)\n" + f"def {name}(A: FLOAT[3], n: INT64):\n" + "".join(f"    {ln}\n" for ln in body)
     return {"name": name, "shape": [3], "params": [["A", "T"], ["n", "I"]], "attrs": [], "rets": [["x", "T"]], "src": src,
             "features": ["break-else"], "near_miss": "break-else", "expect": "TranslationError"}   # a0a3f70 (was C01-D44)
+
+
+def nested_callee_program(rng, name: str) -> dict:
+    """a caller of `helper_nested`, whose own callees sit inside a branch / a loop body only (round-3 seed C02-8)"""
+    pre = rng.choice(["x = helper_nested(A)", "x = helper_nested(op.Neg(A))", "x = op.Add(helper_nested(A), A)"])
+    body = [pre, rng.choice(["return x", "return op.Add(x, A)", "return (x * 2.0)"])]
+    src = "@script(default_opset=op)\n" + f"def {name}(A: FLOAT[3]):\n" + "".join(f"    {ln}\n" for ln in body)
+    return {"name": name, "shape": [3], "params": [["A", "T"]], "attrs": [], "rets": [["x", "T"]], "src": src,
+            "features": ["subfunction-call", "callee-calls-inside-control-flow"]}
 
 
 def first_output_program(rng, name: str) -> dict:
